@@ -1281,6 +1281,17 @@ def check_c02(pid, tier, build, props):
         problems.append("correspondence loop_restructure_helper = Model/LoopEdit.v broken: %d calls differ, first: %r%s"
                         % (lt["mismatch_count"], lt["mismatches"][:1],
                            (" harness: %r" % lt["harness_errors"][:1]) if lt["harness_errors"] else ""))
+    from . import loophcalls
+    lht = loophcalls.tie(tier, common.seed())
+    looph_tie_ok = lht["mismatch_count"] == 0 and not lht["harness_errors"] and lht["agree"] > 0
+    if not looph_tie_ok:
+        # the model of loop_restructure_helper on one level of a hierarchy (Model/LoopHier.v: the flat model applied
+        # to the level's dictionary, header unification by CbHier.insert_cb_h) no longer computes what the
+        # implementation computes on the calls the pipeline makes
+        problems.append("correspondence loop_restructure_helper (pipeline calls, any level) = Model/LoopHier.v broken: "
+                        "%d calls differ, first: %r%s"
+                        % (lht["mismatch_count"], lht["mismatches"][:1],
+                           (" harness: %r" % lht["harness_errors"][:1]) if lht["harness_errors"] else ""))
     from . import extractcalls
     xt_ = extractcalls.tie(tier, common.seed())
     extract_tie_ok = xt_["mismatch_count"] == 0 and not xt_["harness_errors"] and xt_["agree"] > 0
@@ -1333,6 +1344,12 @@ def check_c02(pid, tier, build, props):
                                           "restructures a graph (all levels of the hierarchy): the hierarchy after "
                                           "the call equals Extract.extract of the hierarchy before it, block for "
                                           "block with children in dictionary order"),
+        "loop_helper_hierarchy_model": dict(lht, holds=looph_tie_ok,
+                                            role="every call of transformations.loop_restructure_helper made while the "
+                                                 "pipeline restructures a graph (outermost and nested levels, exits "
+                                                 "that are regions, several headers): the hierarchy after the call "
+                                                 "equals LoopHier.loop_helper_h of the hierarchy before it, block for "
+                                                 "block, children in dictionary order"),
         "loop_helper_model": dict(lt, holds=loop_tie_ok,
                                   role="direct calls of transformations.loop_restructure_helper on (graph, loop) "
                                        "pairs - components of closed and of arbitrary graphs, some sets that are no "
